@@ -57,8 +57,9 @@ func Classify(err error) int {
 type In struct {
 	Kind int    `json:"kind"`
 	Key  string `json:"key"`
-	Val  string `json:"val,omitempty"` // value written (unique per write)
-	Exp  string `json:"exp,omitempty"` // Cas: expected version; Wait: the version given
+	Val  string `json:"val,omitempty"`  // value written (unique per write)
+	Exp  string `json:"exp,omitempty"`  // Cas: expected version; Wait: the version given
+	Gone bool   `json:"gone,omitempty"` // the record written carries an expiry that has already passed: logically it is absent at once
 }
 
 type Out struct {
@@ -88,6 +89,14 @@ type kvState struct {
 }
 
 func symbolic(v string) bool { return len(v) > 0 && v[0] == '?' }
+
+// written is the state after a successful write of in producing version ver.
+func written(in In, ver string) kvState {
+	if in.Gone {
+		return kvState{}
+	}
+	return kvState{true, in.Val, ver}
+}
 
 // symAfter is the version state after a PutMany item replaced st.
 func symAfter(st kvState) string {
@@ -128,7 +137,7 @@ var KVModel = porcupine.Model{
 		switch in.Kind {
 		case KCreate:
 			if out.Err == ENil {
-				return !st.E, kvState{true, in.Val, out.Ver}
+				return !st.E, written(in, out.Ver)
 			}
 			if out.Err == EExist {
 				return st.E, st
@@ -156,12 +165,12 @@ var KVModel = porcupine.Model{
 			if out.Err != ENil {
 				return false, st
 			}
-			return true, kvState{true, in.Val, out.Ver}
+			return true, written(in, out.Ver)
 		case KPutSym:
 			if out.Err != ENil {
 				return false, st
 			}
-			return true, kvState{true, in.Val, symAfter(st)}
+			return true, written(in, symAfter(st))
 		case KCas:
 			switch out.Err {
 			case ENil:
@@ -171,7 +180,7 @@ var KVModel = porcupine.Model{
 				if symbolic(st.Ver) && st.Ver[1:] != "" && st.Ver[1:] == in.Exp {
 					return false, st // succeeded with the version that the PutMany item replaced
 				}
-				return true, kvState{true, in.Val, out.Ver}
+				return true, written(in, out.Ver)
 			case EConflict:
 				return st.E && (symbolic(st.Ver) || st.Ver != in.Exp), st
 			case ENotExist:
